@@ -125,6 +125,11 @@ def oracleEnd (o : Obs) : Option String :=
   else if !o.shutSeen && !o.dropSeen && !o.market.isEmpty then some "jobs-left-on-an-open-market-after-drain"
   else none
 
+/-- the bookkeeping oracle.  PRECONDITION (proved necessary: `C05_oracle_rejects_undisciplined_run`,
+`C05_oracle_rejects_tc_gt_k`; under it every run of the model is accepted: `C05_oracle_accepts_model_runs_partial`):
+`tc ≤ k`, and the trace logs `(shut)` (or `tfire` / `drop` / `xdrop` / `closed = t`) before any `xpush` / `push` / `split`
+on a market that has closed — `Session::run_op` of the harness logs `(shut)` right after the operation that changed
+the answer. -/
 def oracle (k : Nat) : Obs → List Ev → List SExp → Except String Obs
   | o, [], [] => .ok o
   | _, [], _ => .error "malformed"
